@@ -153,7 +153,7 @@ def gen_indices(rng, L):
                 c = rng.choice(["", "", "2"])
                 items.append(f"{a}:{b}" + (f":{c}" if c else ""))
         txt = ",".join(items)
-        if 1 <= len(select_columns("x" * L, txt)) <= 24:
+        if 1 <= len(select_columns("x" * L, txt)) <= 14:
             return txt
     return "0"
 
